@@ -69,9 +69,22 @@ pub fn run_cfg(rec: &J) -> RunCfg {
     }
 }
 
+thread_local! {
+    /// second pass of the renaming check: the accented letter pair of the name pool is concretised as another lower / upper case
+    /// pair of two-byte letters (Greek sigma), not as e-acute / E-acute: names are compared letter by letter, whatever the alphabet
+    static ALT_LETTERS: std::cell::Cell<bool> = std::cell::Cell::new(false);
+}
+
 pub fn concrete_name(j: &J) -> rrss::frontend::ast::VariableName {
     use crate::astb::{common, proper, simple};
-    let words: Vec<String> = j.as_array().unwrap()[1..].iter().map(|w| crate::fam::lex::concretise_src(w.as_str().unwrap())).collect();
+    let conc = |w: &str| -> String {
+        if ALT_LETTERS.with(|a| a.get()) {
+            crate::fam::lex::concretise_src(&w.replace('~', "\u{1}\u{2}").replace('^', "\u{1}\u{3}")).replace("\u{1}\u{2}", "\u{3c3}").replace("\u{1}\u{3}", "\u{3a3}")
+        } else {
+            crate::fam::lex::concretise_src(w)
+        }
+    };
+    let words: Vec<String> = j.as_array().unwrap()[1..].iter().map(|w| conc(w.as_str().unwrap())).collect();
     match j[0].as_str().unwrap() {
         "simple" => simple(&words[0]),
         "common" => common(&words[0], &words[1]),
@@ -140,6 +153,20 @@ pub fn check_rename(rec: &J) -> Verdict {
         }
         if let Err(m) = event_matches(e, &o2) {
             return Verdict::viol(format!("renamed program, statement event {}: {}", i + 1, m), json!({"event": o}));
+        }
+    }
+    // the same renaming with the other pair of accented letters: output and outcome must be the same again
+    if rec["naming"].to_string().contains('~') || rec["naming"].to_string().contains('^') {
+        ALT_LETTERS.with(|a| a.set(true));
+        let naming2 = naming_of(rec);
+        let program2 = Builder { naming: &naming2 }.program(&rec["prog"]);
+        ALT_LETTERS.with(|a| a.set(false));
+        let obs2 = exec::run(&program2, &run_cfg(rec));
+        if obs2.is_panic() {
+            return Verdict::viol(format!("interpreter {} (names with Greek sigma for the accented letter)", obs2.outcome_str()), J::Null);
+        }
+        if obs2.is_ok() != (st == "ok") || jv::abstractise(&obs2.out_text()) != rec["out"].as_str().unwrap() {
+            return Verdict::viol(format!("renamed program with Greek sigma / capital sigma for the accented letter pair: outcome {} , output differs or outcome differs from the model's `{}`", obs2.outcome_str(), st), json!({"out": obs2.out_text()}));
         }
     }
     Verdict::ok(true)
@@ -238,6 +265,22 @@ pub fn check(rec: &J) -> Verdict {
             format!("{} statements completed, model completes {}", evs.len(), exp.len()),
             json!({"lines": evs.iter().map(|e| e["line"].clone()).collect::<Vec<_>>()}),
         );
+    }
+    // Input characters have no meaning to the interpreter: the same run with another character in place of every e-acute of the input
+    // (U+FEFF, which some tools strip from the start of a stream) must print the same text with that character in the same places.
+    // Only where no byte budget is involved (the two characters differ in width).
+    if rec["budget"].as_i64().unwrap_or(-1) < 0 && rec["failAt"].as_i64().unwrap_or(0) == 0 && rec["inp"].to_string().contains('~') {
+        let mut cfg = run_cfg(rec);
+        cfg.input = rec["inp"].as_array().unwrap().iter().map(|c| c.as_str().unwrap().replace('~', "\u{feff}").into_bytes()).collect();
+        cfg.no_events = true;
+        let obs2 = exec::run(&program, &cfg);
+        if obs2.is_panic() {
+            return Verdict::viol(format!("interpreter {} (input with U+FEFF in place of the accented letter)", obs2.outcome_str()), J::Null);
+        }
+        let out2 = obs2.out_text().replace('\u{feff}', "~");
+        if obs2.is_ok() != want_ok || out2 != rec["out"].as_str().unwrap() {
+            return Verdict::viol("the same input with U+FEFF in place of every e-acute gives another run (a character of the input is treated specially)".into(), json!({"out": out2, "outcome": obs2.outcome_str()}));
+        }
     }
     Verdict::ok(exp.len() > 1)
 }
